@@ -37,13 +37,8 @@ func (a *Analyzer) MustWrites(fn *ssa.Function) PathSet {
 		for _, in := range b.Instrs {
 			switch x := in.(type) {
 			case *ssa.Store:
-				ps := st.get(x.Addr)
-				if len(ps) == 1 { // a definite target
-					for p := range ps {
-						if IsParamRoot(p.Root()) {
-							g[cut3(p)] = true
-						}
-					}
+				if p, ok := definiteParamPath(st.get(x.Addr)); ok {
+					g[cut3(p)] = true
 				}
 			case ssa.CallInstruction:
 				for _, p := range a.callMustWrites(st, x) {
@@ -166,18 +161,7 @@ func (a *Analyzer) callMustWrites(st *fnState, ci ssa.CallInstruction) []Path {
 		args = append(args, c.Value)
 	}
 	args = append(args, c.Args...)
-	definite := func(v ssa.Value) (Path, bool) {
-		ps := st.get(v)
-		if len(ps) != 1 {
-			return "", false
-		}
-		for p := range ps {
-			if IsParamRoot(p.Root()) {
-				return p, true
-			}
-		}
-		return "", false
-	}
+	definite := func(v ssa.Value) (Path, bool) { return definiteParamPath(st.get(v)) }
 	var out []Path
 	if c.IsInvoke() {
 		if e, ok := ifaceContract(c); ok {
@@ -227,4 +211,24 @@ func (s PathSet) SortedPaths() []Path {
 	}
 	sort.Slice(out, func(i, j int) bool { return out[i] < out[j] })
 	return out
+}
+
+// definiteParamPath: the single parameter-rooted access path among the
+// origins (locally allocated objects that were stored into that path, e.g.
+// `if p.g == nil { p.g = new(T) }`, do not make it ambiguous).
+func definiteParamPath(ps PathSet) (Path, bool) {
+	var found Path
+	n := 0
+	for p := range ps {
+		r := p.Root()
+		switch {
+		case IsParamRoot(r):
+			found = p
+			n++
+		case strings.HasPrefix(r, "F:"):
+		default:
+			return "", false
+		}
+	}
+	return found, n == 1
 }
